@@ -21,9 +21,12 @@ def run_histories(rep, prop, tier, seed, focus=(), nseeds=None, steps=None, poli
     with cf.ThreadPoolExecutor(W) as ex:
         for out in ex.map(_chunk, payloads):
             if 'error' in out:
-                rep.error(out['error'][:600]); continue
-            rep.b_bulk(out['runs'], out['hashes'], out['samples'][:1])
+                if rep is not None: rep.error(out['error'][:600])
+                continue
+            if rep is not None: rep.b_bulk(out['runs'], out['hashes'], out['samples'][:1])
             fails += out['failures']
+    if rep is None:
+        return fails
     rep.B['rule'] = ('random histories over the public IR mutator alphabet (valid/invalid arguments, proxy outer pins, several '
                      'netlists, both naming policies); distinct = distinct call/outcome sequence; non-trivial = at least 5 accepted '
                      'and 1 refused call')
